@@ -342,9 +342,9 @@ class Loader(yaml.SafeLoader):
 def _checked_scalar_constructor(tag: str) -> Callable[[Any, yaml.Node], Any]:
     """Wraps PyYAML's constructor for a built-in scalar type.
 
-    PyYAML's scalar constructors raise ValueError, KeyError or
-    AttributeError if the text of the scalar is not valid for its tag,
-    e.g. for ``!!int abc`` or ``2001-13-45``. This returns a constructor
+    PyYAML's scalar constructors raise ValueError, KeyError, IndexError
+    or AttributeError if the text of the scalar is not valid for its
+    tag, e.g. for ``!!int abc``, ``2001-13-45`` or an empty ``!!int``. This returns a constructor
     that reports that as a RecognitionError.
 
     Args:
@@ -355,7 +355,7 @@ def _checked_scalar_constructor(tag: str) -> Callable[[Any, yaml.Node], Any]:
     def construct(loader: Any, node: yaml.Node) -> Any:
         try:
             return constructor(loader, node)
-        except (ValueError, KeyError, AttributeError) as e:
+        except (ValueError, KeyError, AttributeError, IndexError) as e:
             raise RecognitionError('{}\nInvalid value: {}'.format(
                 node.start_mark, e))
 
